@@ -5,7 +5,7 @@ import tracemalloc
 
 from hypothesis import strategies as st
 
-from .. import aeq, asn, common, gen, jsonio, values
+from .. import aeq, asn, common, env, gen, jsonio, values
 from ..common import asn1tools
 from ..runner import Check, Failure, exc_sig, hyp_run, watchdog, CaseHang
 from .c13 import outcome
@@ -154,6 +154,8 @@ class C08(Check):
         vcfg = values.ValCfg(max_len=20, max_depth=3, chars='xml' if codec == 'xer' else 'any')
         textual = codec in ('jer', 'xer')
 
+        pool = []       # (module text, type, valid encodings, rate, tsize, case json) for the atheris campaign
+
         def body(case, rec):
             spec, items, muts = case
             if not items:
@@ -181,6 +183,10 @@ class C08(Check):
                     continue
                 sentinel, expected = valid[0]
                 other = valid[-1][0]
+                if len(pool) < 48:
+                    pool.append({'text': spec.text(), 'type': name, 'valid': [v_[0].hex() for v_ in valid],
+                                 'rate': rate, 'tsize': tsize,
+                                 'case': common.mk_case(spec, modname, name, vals[0], codec=codec)})
                 for k, ms in enumerate(muts):
                     base = valid[k % len(valid)][0]
                     data = (mutate_text if textual else mutate)(base, ms, other)
@@ -226,6 +232,79 @@ class C08(Check):
                                 'valid': sentinel.hex()[:100], 'mutated_example': data.hex()[:100]})
         hyp_run(cases(prof, vcfg), body, seed, n, rec, shrink=shard.get('_shrink', False),
                 timeout=shard.get('_timeout'))
+        if tier == 'thorough' and pool and not shard.get('_shrink'):
+            self.atheris_campaign(codec, pool, seed, rec, int(150000 * scale))
+
+    def atheris_campaign(self, codec, pool, seed, rec, runs):
+        """coverage-guided fuzzing (atheris / libFuzzer) of the decoders of the modules met during exploration,
+        same oracle (work meter + sentinel) inside the target"""
+        import json
+        import shutil
+        import subprocess
+        import tempfile
+        deps = os.path.join(env.VERIF_DIR, '.deps')
+        probe = subprocess.run([sys.executable, '-c', 'import atheris'], capture_output=True,
+                               env=dict(os.environ, PYTHONPATH=deps))
+        if probe.returncode != 0:
+            rec.notes['atheris-not-importable(engine: hypothesis-only)'] += 1
+            return
+        work = tempfile.mkdtemp(prefix='asn1v-c08-', dir=os.environ.get('TMPDIR', '/tmp'))
+        try:
+            corpus = os.path.join(work, 'corpus')
+            os.makedirs(corpus)
+            k = 0
+            for i, e in enumerate(pool):
+                for hx in e['valid']:
+                    with open(os.path.join(corpus, 's%d' % k), 'wb') as f:
+                        f.write(bytes([i]) + bytes.fromhex(hx))
+                    k += 1
+            job = {'repo': env.REPO, 'verif': env.VERIF_DIR, 'codec': codec, 'floor': FLOOR_EVENTS, 'factor': FACTOR,
+                   'out': work, 'entries': [{k_: e[k_] for k_ in ('text', 'type', 'valid', 'rate', 'tsize')}
+                                            for e in pool]}
+            jf = os.path.join(work, 'job.json')
+            with open(jf, 'w') as f:
+                json.dump(job, f)
+            try:
+                p = subprocess.run([sys.executable, os.path.join(env.VERIF_DIR, 'vlib', 'fuzz_c08.py'), jf,
+                                    '-runs=%d' % runs, '-seed=%d' % (seed % (2 ** 31) or 1), '-max_len=4096',
+                                    '-timeout=60', '-artifact_prefix=' + work + '/', corpus],
+                                   capture_output=True, timeout=3000,
+                                   env=dict(os.environ, PYTHONPATH=deps, PYTHONHASHSEED='0'))
+            except subprocess.TimeoutExpired:
+                rec.notes['atheris-campaign-wall-clock-limit(inconclusive)'] += 1
+                return
+            stats = {}
+            try:
+                stats = json.load(open(os.path.join(work, 'stats.json')))
+            except Exception:
+                pass
+            rec.cls('atheris-campaigns')
+            rec.classes['atheris-execs'] += stats.get('execs', 0)
+            rec.evaluations += stats.get('execs', 0)
+            for j in range(min(stats.get('distinct', 0), 5000)):
+                rec.nontrivial.add('atheris:%s:%d:%d' % (codec, seed, j))
+            fj = os.path.join(work, 'finding.json')
+            if os.path.exists(fj):
+                fd = json.load(open(fj))
+                e = pool[fd['entry']]
+                data = bytes.fromhex(fd['input'])
+                budget = int(max(FLOOR_EVENTS, FACTOR * max(e['rate'], 1.0) * (len(data) + 64) * (e['tsize'] + 1)))
+                case = dict(e['case'], input=fd['input'], valid=e['valid'][0], budget=budget, engine='atheris')
+                rec.fail(Failure(fd['kind'], 'atheris: %s: %s' % (fd['message'], fd['input'][:80]), case,
+                                 ['codec:' + codec, 'engine:atheris']))
+            elif p.returncode != 0:
+                tail = p.stderr.decode('utf-8', 'replace')[-300:]
+                crash = [fn for fn in os.listdir(work) if fn.startswith(('crash-', 'timeout-', 'oom-'))]
+                if crash and crash[0].startswith('timeout-'):
+                    raw = open(os.path.join(work, crash[0]), 'rb').read()
+                    e = pool[raw[0] % len(pool)] if raw else pool[0]
+                    case = dict(e['case'], input=raw[1:].hex(), valid=e['valid'][0], budget=10 ** 9, engine='atheris')
+                    rec.fail(Failure('unbounded-hang', 'atheris: a decode did not return within 60 s: %s'
+                                     % raw[1:].hex()[:80], case, ['codec:' + codec, 'engine:atheris']))
+                else:
+                    rec.notes['atheris-child-failed:' + tail[-120:]] += 1
+        finally:
+            shutil.rmtree(work, ignore_errors=True)
 
     def replay(self, case, rec):
         spec, modname, name, ty, v = common.load_case(case)
